@@ -1,6 +1,7 @@
 import BigtoolsModel.FileOf
 import BigtoolsModel.Codec
 import BigtoolsModel.Compressed
+import BigtoolsModel.AtomsGen
 /-! # C01 — bigWig write/read round trip
 
 Models: `BBI.fileOf` (module `FileOf`) — the byte image the writer lays down for an input: chromosome ids in
@@ -117,3 +118,16 @@ theorem compressed_file_query_returns_the_stored_values (z : Zlib) (b : Nat) (hb
   wig_query_bytes_compressed z b hb hb16 ds hne hsorted hok l hl hsecs Ls hLs idx hidx c qs qe
 
 end Props.C01
+
+namespace SectionCut
+
+/-- **The code's own section cut** (regenerated from `process_val` of both writers): a data section is handed over after the
+    chromosome's last item or when it holds `min items_per_slot 65535` items — so no section ever holds more items than its
+    16-bit count field can express (D22), whatever `items_per_slot` is. -/
+theorem C01_source_section_cut (isLast : Bool) (n ips : Nat) :
+    Gen.wig_cut isLast n ips = (isLast || decide (n ≥ min ips 65535)) ∧
+    Gen.bed_cut isLast n ips = (isLast || decide (n ≥ min ips 65535)) ∧
+    (n ≥ 65535 → Gen.wig_cut isLast n ips = true ∧ Gen.bed_cut isLast n ips = true) :=
+  ⟨(gen_cut isLast n ips).1, (gen_cut isLast n ips).2, gen_cut_fits_u16 isLast n ips⟩
+
+end SectionCut
